@@ -42,6 +42,7 @@ class FS:
         self.now = None
         self.crashed_in = None
         self.dead = False
+        self.tmp_other_fs = None
 
     def step(self, what):
         """every environment call is a potential crash point (before it) ..."""
@@ -86,6 +87,9 @@ class FS:
 
     def mkstemp(self, dir=None, **kw):
         i = self.step("mkstemp")
+        if dir is None:
+            dir = "/tmp"                # tempfile's default: the system temporary directory - possibly another file system
+            self.dirs.add("/tmp")
         if dir not in self.dirs:
             raise FileNotFoundError(dir)
         self.tmpn += 1
@@ -126,6 +130,39 @@ class FS:
             raise FileNotFoundError(src)
         self.files[dst] = self.files.pop(src)   # atomic within one directory (POSIX)
         self.after(i, "rename")
+
+    def same_filesystem(self, a, b):
+        fa, fb = a.startswith("/tmp/"), b.startswith("/tmp/")
+        if fa == fb:
+            return True
+        if self.tmp_other_fs is None:
+            self.tmp_other_fs = self.p.new_bool("system_tmp_is_another_file_system")
+        return not self.p.fork(self.tmp_other_fs)
+
+    def move(self, src, dst):
+        """shutil.move: os.rename, which is atomic, within one file system; across file systems a copy (the destination is
+        opened for writing - truncated -, filled, closed) followed by the removal of the source"""
+        if self.same_filesystem(src, dst):
+            return self.rename(src, dst)
+        if src not in self.files:
+            raise FileNotFoundError(src)
+        data = self.files[src]
+        i = self.step("copy-open")
+        self.files[dst] = dict(kind="temp", version=None, magic=None, length=0, total=None, mtime=self.now)
+        self.after(i, "copy-open")
+        i = self.step("copy-write")
+        f = self.files[dst]
+        f.update(kind=data["kind"], version=data["version"], magic=data["magic"], total=data["total"])
+        if self.crash_at is not None and self.p.fork(self.crash_at == -1 - i):
+            j = self.p.new_int("torn")
+            self.p.assume(z3.And(j >= 0, j < data["total"]))
+            f["length"] = j
+            self.crashed_in = ("during", "copy-write")
+            self.dead = True
+            raise Crash()
+        f["length"] = data["length"]
+        self.after(i, "copy-write")
+        self.remove(src)
 
     def remove(self, path):
         i = self.step("remove")
@@ -224,7 +261,7 @@ def install(fs):
     TP.os = osm
     UT.os = osm
     TP.tempfile = types.SimpleNamespace(mkstemp=fs.mkstemp)
-    TP.shutil = types.SimpleNamespace(move=fs.rename)
+    TP.shutil = types.SimpleNamespace(move=fs.move)
     TP.open = fs.open
     TP.compat = types.SimpleNamespace(load_module=fs.load_module)
 
@@ -501,7 +538,15 @@ from mako.template import Template
 import mako.template as TP
 from mako import codegen
 bad = None
-base = tempfile.mkdtemp(prefix="c15replay")
+# a scenario in which shutil.move had to copy needs the module directory on another file system than the system temp directory
+cross = any(str(x).startswith("copy") for x in CASE.get("env_calls", []))
+shm = "/dev/shm"
+if cross and os.path.isdir(shm) and os.stat(shm).st_dev != os.stat(tempfile.gettempdir()).st_dev:
+    base = tempfile.mkdtemp(prefix="c15replay", dir=shm)
+elif cross:
+    print("no second file system available: cannot be reproduced here"); print("HOLDS (not reproduced)"); sys.exit(0)
+else:
+    base = tempfile.mkdtemp(prefix="c15replay")
 try:
     src = os.path.join(base, "u.html"); mods = os.path.join(base, "mods")
     if "module_mtime" in CASE:
@@ -560,6 +605,21 @@ if target:
             os_write(a[0], a[1][: len(a[1]) // 2]); os._exit(9)
         r = orig(*a, **k); os._exit(9)
     setattr(mod_, name_, dying)
+elif where and str(where[1]).startswith("copy"):
+    # shutil.move across file systems: rename fails, the destination is opened (truncated), filled and closed
+    def move(src, dst):
+        try:
+            os.rename(src, dst); return
+        except OSError:
+            pass
+        if where == ("before", "copy-open"): os._exit(9)
+        fd = os.open(dst, os.O_WRONLY | os.O_CREAT | os.O_TRUNC)
+        if where in (("after", "copy-open"), ("before", "copy-write")): os._exit(9)
+        data = open(src, "rb").read()
+        if where[0] == "during": os.write(fd, data[: len(data) // 2]); os._exit(9)
+        os.write(fd, data); os._exit(9)
+    where = tuple(where)
+    shutil.move = move
 from mako.template import Template
 Template(filename=%%r, module_directory=%%r, uri="u.html")
 """ %% (where, src, mods)
@@ -596,7 +656,8 @@ def run(check, tier):
     check.encode(*kernel())
     check.assume(
         "file system model: files are records (kind, generated-from version, magic matches, bytes present, total bytes, mtime); "
-        "rename within one directory is atomic (POSIX contract); every environment call made while writing is a crash point "
+        "rename within one file system is atomic (POSIX contract), shutil.move across file systems is a copy (open-truncate, write, "
+        "possibly torn) plus removal, and the system temporary directory may be another file system than module_directory; every environment call made while writing is a crash point "
         "(before / after), os.write may be torn at any symbolic prefix length, and any call may fail with OSError",
         "os.fdopen / open(...,'w') return a buffered file whose data reaches the file only at flush/close",
         "code generation is stubbed: _compile returns a source object carrying the version of the text it was generated from; "
